@@ -25,6 +25,18 @@
 //     items and the oldest one evictable / not evictable), the class is
 //     verified by inspection (rec.pre) and the client's record is inspected
 //     again after the listener has finished the exchange (rec.post_k).
+//
+// The sender's source port (Listener.tla SrcPortNames): a case of class
+//   - "eph" is sent from a socket bound to port 0 (as before),
+//   - "p123" from port 123 (ntp.ServerPortIP), "priv" from another port below
+//     1024 (chosen per seed), "lport" from the port NUMBER of the addressed
+//     listener - each on the sending worker's own loopback address (every
+//     worker of that phase is a host of its own, so that the fixed ports do
+//     not collide). Over SCION the SCION/UDP source port is the same port.
+//
+// A port that cannot be bound here (no CAP_NET_BIND_SERVICE, taken) makes the
+// case unobserved: nothing is sent, nothing is recorded for it, and the
+// "port" record of the class counts it.
 package c09
 
 import (
@@ -112,6 +124,10 @@ type tcase struct {
 	Il    bool   `json:"il"`    // the request refers to an exchange on record
 	Anc   string `json:"anc"`   // what the listener finds next to the datagram: "ts" | "none"
 	Org   string `json:"org"`   // which request field the reply's origin repeats
+	// the sender: source port class ("eph" | "p123" | "priv" | "lport") and the
+	// endpoint it sends from (Listener.tla SrcPortOf)
+	Sp  string `json:"sp"`
+	Src aep    `json:"src"`
 }
 
 // a store class (Listener.tla ClassOf)
@@ -172,6 +188,7 @@ type rec struct {
 	Tr    string `json:"tr"`
 	Pk    string `json:"pk"`
 	Src   aep    `json:"src"`
+	Sp    string `json:"sp"` // the sender's source port class (Src.P is the port it means)
 	Dst   aep    `json:"dst"`
 	Sc    *asc   `json:"sc,omitempty"` // SCION only
 	Exp   int    `json:"exp"`
@@ -804,7 +821,7 @@ type scionReply struct {
 	pathRaw []byte
 }
 
-func decodeSCION(b []byte, myPort, srvPort int, cl *client) scionReply {
+func decodeSCION(b []byte, myPort int, myName string, srvPort int, cl *client) scionReply {
 	var (
 		sl   slayers.SCION
 		hbh  slayers.HopByHopExtnSkipper
@@ -824,7 +841,7 @@ func decodeSCION(b []byte, myPort, srvPort int, cl *client) scionReply {
 	pn := func(p uint16) string {
 		switch int(p) {
 		case myPort:
-			return "eph"
+			return myName // (class "lport": the listener's port number, "sntp", either way)
 		case srvPort:
 			return "sntp"
 		}
@@ -979,10 +996,11 @@ const (
 )
 
 // cl: the client this worker embodies; tr: its tracker (cases with a store class)
+// nil: the case's source port could not be bound here (unobserved, counted in unbound)
 func runCase(id, rep int, c *tcase, rng *rand.Rand, cl *client, tr *tracker) *rec {
 	s := inst(c.To, c.Conf)
 	r := &rec{K: "case", ID: id, Rep: rep, Srv: s.name, Tp: c.Tp, B0: c.B0, Len: c.Len, Tr: c.Tr, Pk: c.Pk,
-		Src: aep{"C", "eph"}, Dst: s.ep(c.Tp), Exp: c.Exp, Drop: c.Drop, Out: []arep{},
+		Src: c.Src, Sp: c.Sp, Dst: s.ep(c.Tp), Exp: c.Exp, Drop: c.Drop, Out: []arep{},
 		Conf: c.Conf, Store: c.Store, Il: c.Il, Anc: c.Anc, Pre: apre{Fill: "none"}, PostK: -1}
 	cid := cl.id(c.Tp, c.Sc.St)
 	for try := 1; try <= maxTries; try++ {
@@ -997,19 +1015,40 @@ func runCase(id, rep int, c *tcase, rng *rand.Rand, cl *client, tr *tracker) *re
 		// otherwise the port abstraction (eph / ntp / sntp) has no exact inverse
 		var conn *net.UDPConn
 		var myPort int
-		for {
+		dst := s.udpAddr(c.Tp)
+		for c.Sp == "eph" {
 			var err error
 			conn, err = net.ListenUDP("udp4", &net.UDPAddr{IP: cl.ip4})
 			if err != nil {
 				panic(err)
 			}
 			myPort = conn.LocalAddr().(*net.UDPAddr).Port
-			if myPort != s.ntpPort && myPort != s.scionPort && myPort != 30041 {
+			if myPort != s.ntpPort && myPort != s.scionPort && myPort != 30041 && myPort != privPort {
 				break
 			}
 			conn.Close()
 		}
-		dst := s.udpAddr(c.Tp)
+		if c.Sp != "eph" {
+			// a port of the case's class on this worker's own address
+			switch c.Sp {
+			case "p123":
+				myPort = ntp.ServerPortIP
+			case "priv":
+				myPort = privPort
+			case "lport":
+				myPort = dst.Port
+			default:
+				panic("unknown source port class " + c.Sp)
+			}
+			var err error
+			if cl.ip4 != nil {
+				conn, err = net.ListenUDP("udp4", &net.UDPAddr{IP: cl.ip4, Port: myPort})
+			}
+			if cl.ip4 == nil || err != nil {
+				noteUnbound(c.Sp, err)
+				return nil
+			}
+		}
 		payload, tx := buildPayload(c, s, rng, origin)
 		var rx []byte
 		if tx != nil {
@@ -1066,13 +1105,13 @@ func runCase(id, rep int, c *tcase, rng *rand.Rand, cl *client, tr *tracker) *re
 				break // deadline
 			}
 			pl := buf[:n]
-			o := arep{RawOK: true, Dst: aep{"C", "eph"}, Src: aep{"?", "?"}}
+			o := arep{RawOK: true, Dst: r.Src, Src: aep{"?", "?"}} // it arrived at the sending socket
 			if from.IP.Equal(s.ip) && from.Port == dst.Port {
 				o.Src = s.ep(c.Tp)
 			}
 			var pathRaw []byte
 			if c.Tp == "scion" {
-				d := decodeSCION(pl, myPort, s.scionPort, cl)
+				d := decodeSCION(pl, myPort, r.Src.P, s.scionPort, cl)
 				if !d.ok {
 					r.Other++
 					continue
@@ -1129,6 +1168,11 @@ func runCase(id, rep int, c *tcase, rng *rand.Rand, cl *client, tr *tracker) *re
 		graveMu.Lock()
 		graveyard = append(graveyard, conn)
 		graveMu.Unlock()
+		if c.Sp != "eph" {
+			// the fixed port stays bound on this address: the worker (a host of
+			// its own in this phase) moves to a spare address
+			cl.ip4 = spareIP()
+		}
 	}
 	return r
 }
@@ -1136,7 +1180,40 @@ func runCase(id, rep int, c *tcase, rng *rand.Rand, cl *client, tr *tracker) *re
 var (
 	graveMu   sync.Mutex
 	graveyard []*net.UDPConn
+	// source port classes
+	privPort int                 // the port of class "priv" in this run
+	spareIP  func() net.IP       // a loopback address nobody has used yet (nil: none left)
+	unbMu    sync.Mutex
+	unbound  = map[string]int{}    // class -> cases whose port could not be bound
+	unbWhy   = map[string]string{} // class -> first error
+	portDone = map[string]int{}    // class -> case records written
 )
+
+func noteUnbound(class string, err error) {
+	unbMu.Lock()
+	unbound[class]++
+	if _, ok := unbWhy[class]; !ok {
+		if err != nil {
+			unbWhy[class] = err.Error()
+		} else {
+			unbWhy[class] = "no spare loopback address left"
+		}
+	}
+	unbMu.Unlock()
+}
+
+// port record: how many generated cases of one source port class were sent
+// (their port could be bound) and how many were not
+type portrec struct {
+	K         string `json:"k"` // "port"
+	Conf      string `json:"conf"`
+	Stage     string `json:"stage"` // the class (common layout with "stage")
+	Logged    int    `json:"logged"`    // case records written
+	Predicted int    `json:"predicted"` // cases generated (x repetitions)
+	Unbound   int    `json:"unbound"`
+	Port      int    `json:"port"` // the port number used (lport: 0, it depends on the listener)
+	Why       string `json:"why"`
+}
 
 // ------------------------------------------------------------- pair (A <-> B)
 
@@ -1239,6 +1316,15 @@ func TestC09(t *testing.T) {
 	base := net.IPv4(127, byte(1+(h>>8)%250), byte(h>>16), 0).To4()
 	mk := func(last byte) net.IP { ip := append(net.IP{}, base...); ip[3] = last; return ip }
 	hostC.ip4 = mk(3)
+	// class "priv": a privileged port other than 123, per seed
+	privPort = 200 + int((vio.Seed()*37)%800)
+	var spare atomic.Int32
+	spareIP = func() net.IP {
+		if n := spare.Add(1); n <= 180 {
+			return mk(byte(63 + n))
+		}
+		return nil
+	}
 	startServer(t, "A", mk(1), "1-ff00:0:111", "sw")
 	startServer(t, "B", mk(2), "1-ff00:0:112", "sw")
 	// server A once more, its listeners started with an interface name (own ports)
@@ -1246,9 +1332,18 @@ func TestC09(t *testing.T) {
 
 	// the cases by phase: store left as the run leaves it | a store class that
 	// does not need a full store | one that does
-	var cases, storeA, storeB []int
+	// | sent from a port of a class other than "eph"
+	var cases, storeA, storeB, ported []int
 	for i := range all {
+		if all[i].Sp == "" { // (hand-written case files without the field)
+			all[i].Sp, all[i].Src = "eph", aep{"C", "eph"}
+		}
 		switch {
+		case all[i].Sp != "eph":
+			if all[i].Store != "asis" {
+				t.Fatalf("case %d: source port class %s with store class %s is not supported by the driver", i, all[i].Sp, all[i].Store)
+			}
+			ported = append(ported, i)
 		case all[i].Store == "asis":
 			cases = append(cases, i)
 		case all[i].Cls.Full:
@@ -1265,7 +1360,8 @@ func TestC09(t *testing.T) {
 		for _, tp := range []string{"ip", "scion"} {
 			c := tcase{Tp: tp, B0: 0x23, Len: 48, Tr: "none", Pk: "empty", Fam: "44", From: "C", To: "A", Path: emptyPath, Exp: 1, Drop: "none",
 				Sc:   asc{"iaC", "C", "v4", "eph", "iaA", "A", "v4", "sntp", emptyPath},
-				Conf: conf, Store: "asis", Cls: acls{Fill: "none"}, Anc: map[string]string{"sw": "ts", "hw": "none"}[conf], Org: "tx"}
+				Conf: conf, Store: "asis", Cls: acls{Fill: "none"}, Anc: map[string]string{"sw": "ts", "hw": "none"}[conf], Org: "tx",
+				Sp: "eph", Src: aep{"C", "eph"}}
 			r := runCase(-1, 0, &c, vio.Rand(), hostC, nil)
 			out.Emit(r)
 			pre++
@@ -1308,11 +1404,19 @@ func TestC09(t *testing.T) {
 							continue
 						}
 						r := runCase(idx[k], rep, tc, rng, c, tr)
+						if r == nil {
+							continue // source port not bindable here: unobserved, counted
+						}
 						if r.Sn != 1 {
 							lost.Add(1)
 						}
 						out.Emit(r)
 						done.Add(1)
+						if tc.Sp != "eph" {
+							unbMu.Lock()
+							portDone[tc.Sp]++
+							unbMu.Unlock()
+						}
 					}
 				}
 			}(w)
@@ -1320,6 +1424,29 @@ func TestC09(t *testing.T) {
 		wg.Wait()
 	}
 	phase(cases, workers, reps, func(int) (*client, *tracker) { return hostC, nil }, 24)
+
+	// cases sent from port 123 / another privileged port / the listener's port
+	// number: every worker is a host of its own (address .40+w), so that the
+	// same fixed port can be bound by all of them at once
+	if lost.Load() == 0 && len(ported) > 0 {
+		pcl := make([]*client, workers)
+		for w := range pcl {
+			pcl[w] = &client{ip4: mk(byte(40 + w)), ip6: netip.MustParseAddr("fd00:1:2:3:4:5:6:" + strconv.FormatInt(int64(0x200+w), 16))}
+		}
+		phase(ported, workers, reps, func(w int) (*client, *tracker) { return pcl[w], nil }, 24)
+		gen := map[string]int{}
+		for _, i := range ported {
+			gen[all[i].Sp] += reps
+		}
+		unbMu.Lock()
+		for cls, n := range gen {
+			pr := &portrec{K: "port", Conf: "sw", Stage: cls, Logged: portDone[cls], Predicted: n, Unbound: unbound[cls], Why: unbWhy[cls],
+				Port: map[string]int{"p123": ntp.ServerPortIP, "priv": privPort}[cls]}
+			out.Emit(pr)
+			pre++
+		}
+		unbMu.Unlock()
+	}
 
 	// per-stage totals of the case phase (exact only if no attempt timed out:
 	// otherwise it is unknown what the listener did with the lost datagrams)
